@@ -3,7 +3,8 @@ EXTENDS RunT, Json
 CONSTANTS Emit
 
 Sc(n, ls) == [name |-> n, lines |-> ls]
-B(ss, r) == [scripts |-> ss, retain |-> r]
+B(ss, r) == [scripts |-> ss, retain |-> r, how |-> IF r THEN "testwork" ELSE "none"]
+BR(ss) == [scripts |-> ss, retain |-> TRUE, how |-> "workdirroot"]     \* Params.WorkdirRoot: retention with a caller-supplied root
 \* script shapes
 Plain   == <<"env", "cd", "gate", "write", "probe", "gate", "probe", "childenv">>
 Probe2  == <<"probe", "gate", "env", "probe", "gate", "cd", "write", "probe">>
@@ -24,14 +25,15 @@ MCBatches == {
   B(<<Sc("n1", NoPath), Sc("w1", WithPath)>>, FALSE),
   B(<<Sc("w1", WithPath), Sc("n1", NoPath)>>, FALSE),
   B(<<Sc("d1", Defers), Sc("r1", ReadOnly)>>, TRUE),
+  BR(<<Sc("f1", Fails), Sc("p1", Plain)>>),
   B(<<Sc("p1", Plain), Sc("f1", Fails), Sc("s1", Skips)>>, FALSE),
   B(<<Sc("x1", WaitFail), Sc("d1", Defers)>>, FALSE),
   B(<<Sc("x1", WaitFail), Sc("x2", WaitFail)>>, FALSE)
 }
 
 EmitStep == IF Emit /\ sched' # sched
-            THEN PrintT(<<"EMIT", ToJson([scripts |-> batch.scripts, retain |-> batch.retain, sched |-> sched'])>>) ELSE TRUE
-EmitConfig == IF Emit THEN PrintT(<<"EMIT", ToJson([scripts |-> batch.scripts, retain |-> batch.retain, sched |-> <<>>])>>) ELSE TRUE
+            THEN PrintT(<<"EMIT", ToJson([scripts |-> batch.scripts, retain |-> batch.retain, how |-> batch.how, sched |-> sched'])>>) ELSE TRUE
+EmitConfig == IF Emit THEN PrintT(<<"EMIT", ToJson([scripts |-> batch.scripts, retain |-> batch.retain, how |-> batch.how, sched |-> <<>>])>>) ELSE TRUE
 MCNext == Next /\ EmitStep
 MCSpec == (Init /\ EmitConfig) /\ [][MCNext]_vars
 MCFairSpec == MCSpec /\ WF_vars(MCNext)
